@@ -563,7 +563,7 @@ func decodeInitSegment(sr bits.SliceReader) (f *mp4.File, err error) {
 }
 
 func handleMPD(w http.ResponseWriter, req *http.Request, storage, chName string) {
-	err := os.MkdirAll(chName, 0755)
+	err := os.MkdirAll(filepath.Join(storage, chName), 0755) // below the storage root, not the working directory
 	if err != nil {
 		slog.Error("Failed to create directory", "err", err)
 		http.Error(w, "Failed to create directory", http.StatusInternalServerError)
